@@ -18,7 +18,9 @@ Definition flag_var (param : list N) : option (list N) :=
 Definition apply_arg (e : env) (arg : list N) : env :=
   match split_once arg [61] with
   | None => e
-  | Some (param, value) => match flag_var param with Some v => env_set v value e | None => e end
+  | Some (param, value) => match flag_var param with
+                           | Some v => if existsb (N.eqb 0) value then e else env_set v value e     (* a value with NUL is skipped (fix: set_var panicked) *)
+                           | None => e end
   end.
 Definition cli_parse (args : list (list N)) (e : env) : env := fold_left apply_arg args e.
 
